@@ -10,7 +10,8 @@ open Cg Cg.Gen.C06
 variable [FRem ℝ] [Lits ℝ]
 
 /-- `Matrix3::from_axis_angle(a, t)` as computed maps every `v` to `v cos t + (a x v) sin t + a (a.v)(1 - cos t)`; for a unit
-axis it fixes the axis, is orthonormal with determinant +1, and angles add under composition -/
+axis it fixes the axis, satisfies `MᵀM = 1` with determinant +1 (only this order of the product is stated here; `M Mᵀ = 1` is at
+model level, `m3_axisAngle_orthonormal_real`, `Props/C06c.lean`), and angles add under composition -/
 theorem code_m3_from_axis_angle (a v : V3 ℝ) (t t' : ℝ) :
     ∃ f : V3 ℝ → ℝ → M3 ℝ, (∀ b s, t_m3_from_axis_angle (envL (b.toList ++ [s])) = .okS (f b s).toList) ∧
       f a t * v = C06.rodrigues a (Real.cos t) (Real.sin t) v ∧
@@ -25,7 +26,8 @@ theorem code_q_from_axis_angle (a v : V3 ℝ) (t : ℝ) (ha : a.magnitude2 = 1) 
       q * v = C06.rodrigues a (Real.cos t) (Real.sin t) v ∧ q.magnitude2 = 1 :=
   ⟨Quat.fromAxisAngle a t, Trace.C06.t_q_from_axis_angle a t, C06.quat_axisAngle_real a v t ha⟩
 
-/-- the 4x4 constructors are the embeddings of the 3x3 ones, and `from_angle_x/y/z` are `from_axis_angle` about the unit axes -/
+/-- two of the four 4x4 constructors (`Matrix4::from_axis_angle`, `Matrix4::from_angle_x`; not `from_angle_y/z`) are the embeddings
+of the 3x3 ones, and `Matrix3::from_angle_x/y/z` are `from_axis_angle` about the unit axes -/
 theorem code_m4_and_axes (a : V3 ℝ) (t : ℝ) :
     t_m4_from_axis_angle (envL (a.toList ++ [t])) = .okS (M3.fromAxisAngle a t).toM4.toList ∧
     t_m3_from_angle_x (envL [t]) = .okS (M3.fromAxisAngle V3.unitX t).toList ∧
